@@ -88,10 +88,13 @@ def rule_b2(ctx, pl: Pipeline) -> None:
                 later_filters.append(n)
             if isinstance(n, ast.Call) and isinstance(n.func, ast.Attribute) and n.func.attr in ("drop_duplicates", "dropna", "sort_values", "sample"):
                 later_filters.append(n)
-    ok = positional and bool(resets) and not later_filters
+    scfg = CFG(spl.node)
+    id_guards = scfg.guards(scfg.node_of(idstore))
+    unconditional = not id_guards
+    ok = positional and bool(resets) and not later_filters and unconditional
     ctx.instance("C06-B2", "data_splitter: id := positional index after reset_index, no later row-count change", spl.loc(idstore), ok=ok)
     if not ok:
-        ctx.finding("C06-B2", "RSMIProcessing.data_splitter:positional-id", spl.loc(idstore), "the id column is not the positional index of the final frame (positional=%s, reset_index before=%s, later filters=%d)" % (positional, bool(resets), len(later_filters)))
+        ctx.finding("C06-B2", "RSMIProcessing.data_splitter:positional-id", spl.loc(idstore), "the id column is not (always) the positional index of the final frame (positional=%s, reset_index before=%s, later filters=%d, assigned unconditionally=%s): ids supplied with the data would be used as list positions" % (positional, bool(resets), len(later_filters), unconditional))
     # the splitter is told data_name=None on the pipeline path
     ctor = None
     for c in calls(pre):
